@@ -85,6 +85,11 @@ def circuit_boolean_optimizer(
         ):
             continue
 
+        # Every value has to stay on its own qubit: the compiler implements an expression
+        # that is just another symbol (q0 = q1) renaming the qubits, without any gate
+        if any(qc_sec.qubit_map[sym] != qc.qubit_map[sym] for sym in symbols):
+            continue
+
         # Replace the circuit section with the new one
         qc_new.gates[section.index[0] : section.index[1]] = qc_sec.gates
 
